@@ -8,8 +8,11 @@ every generated table) implies the theorems below about `run A` — the model of
 import Emboss.Lemmas.Lr1Examples
 import Emboss.Lemmas.Lr1Fast
 import Emboss.Lemmas.Lr1Term
-import Emboss.Lemmas.Lr1Gen
+import Emboss.Lemmas.Lr1GenValid
+import Emboss.Lemmas.Lr1GenFuelBfs
+import Emboss.Lemmas.Lr1GenReduced
 import Emboss.Lemmas.Lr1TermCex
+import Emboss.Lemmas.Lr1EmbossRuns
 namespace Emboss.Lr1
 
 /-- **The compiled validator decides `Valid`.**  `validFast` (hash-set membership; what the
@@ -112,24 +115,66 @@ theorem C08_terminates_accepting {G : Grammar} {A : Automaton} {C : Cert} (hv : 
   obtain ⟨f, hf⟩ := run_complete hv hd
   exact ⟨f, t, hf f (Nat.le_refl _)⟩
 
-/-! ### Level B: the generator model `gen` (Model/Lr1Gen.lean), closure / goto core
+/-! ### Level B: the generator model `gen` (Model/Lr1Gen.lean)
 
-Full statement (NOT proved):
-     theorem C08_gen_valid (h : gen G = some o) (hc : o.conflicts = false) : Valid G o.aut o.cert
-   Proved below: the `VClosure` and `VStart` conjuncts for every output of `gen` (conflict-free or
-   not), and the specification of `closure` / `gotoSet` from which `VKernel`'s item condition
-   follows.  Missing: `VWf` (lookup arrays), `VTrans`/`VKernel` over the BFS numbering, `VComplete` /
-   `VActJust` (action loop), `VOrder` (a justification order of the sorted item lists), `VFirst`.
-   Until then the remaining conjuncts are discharged at run time: `gen G` is compared with the real
-   `Grammar.parser()` on every grammar of the run (identical item sets, numbering, conflict flag,
-   tables — driver op `GEN`), and the real tables are validated (`LRVALID`). -/
+`gen G` models `Grammar(start, productions).parser()`: `_compute_symbols`, the FIRST fixed point
+(`_compute_seed_firsts`: rounds until nothing is added), the worklist closure, `_parallel_goto`,
+the breadth-first numbering of `_items`, the ACTION loop with its conflict check, goto trimming.
+It is compared **exactly** with the real generator on every grammar of the run (driver op `GEN`:
+item sets, numbering, conflict flag, tables).  The theorems below are about every grammar. -/
 
-/-- **Level B, closure/start.**  Every state of the generated automaton is closed under
-"`[A → α . X β, a]` brings `[X → . γ, c]` for all `c ∈ FIRST(β a)`" (FIRST = the generator's own
-fixed point), state 0 contains `[S' → . start, $]` and consists of dot-0 items only. -/
-theorem C08_gen_valid_partial {G : Grammar} {o : Gen.Out} (h : gen G = some o) :
-    VClosure (listMem o.cert) o.cert ∧ VStart (listMem o.cert) G o.cert :=
-  gen_closure_start h
+/-- **Level B: the generator is correct by construction.**  Whenever the generator model returns
+tables without conflicts, these tables — with the item sets it built, in the order it found the
+items, and its own FIRST table as certificate — satisfy all nine conditions of the validator:
+`Valid`.  (`WfG G`: the client's productions do not use the reserved symbols `$` and `S'`.)  So
+"the generator builds a parser for exactly the grammar's language" is a theorem about the
+generator model, not only a per-table validation. -/
+theorem C08_gen_valid {G : Grammar} {o : Gen.Out} (h : gen G = some o) (hW : WfG G)
+    (hc : o.conflicts = false) : Valid G o.aut o.cert :=
+  gen_valid h hW hc
+
+/-- **Level B: exactly the grammar's language, unambiguously, without exceptions** — the
+consequences of `C08_gen_valid` for the generated tables: the parser accepts `w` with tree `t`
+iff `t` is a derivation of `w`; a grammar with two derivations of one string is never
+conflict-free; the driver never raises on any token list. -/
+theorem C08_gen_correct {G : Grammar} {o : Gen.Out} (h : gen G = some o) (hW : WfG G)
+    (hc : o.conflicts = false) :
+    (∀ (w : List Token) (t : Tree), (∃ fuel, run o.aut fuel w = .accept t) ↔ Derives G t w) ∧
+    (∀ (w : List Token) (t₁ t₂ : Tree), Derives G t₁ w → Derives G t₂ w → t₁ = t₂) ∧
+    (∀ (w : List Token) (fuel : Nat) (m : String), run o.aut fuel w ≠ .internal m) :=
+  have hv := C08_gen_valid h hW hc
+  ⟨fun _ t => C08_accepts_iff hv t, fun _ _ _ h₁ h₂ => C08_unambiguous hv h₁ h₂,
+    fun w fuel m => C08_safe hv w fuel m⟩
+
+/-- **Level B: the fuel bounds suffice.**  The generator model never answers "out of fuel": the FIRST
+iteration stops within `n·(n+1) + 2` rounds (`n` = number of symbol codes: every round that does not
+stop adds a (nonterminal, terminal-or-ε) fact), every worklist closure within
+`|rules|·(maxrhs+1)·n + |seed|` iterations (only dot-0 items are added, each once), and the
+breadth-first construction within `2 ^ (|rules|·(maxrhs+1)·n) + 2` steps (states are pairwise
+different sorted duplicate-free lists of items, i.e. sublists of the sorted list of all items). -/
+theorem C08_gen_fuel_sufficient {G : Grammar} (hW : WfG G) : ∃ o, gen G = some o :=
+  gen_some hW
+
+/-- **Level B, in one statement.**  For every grammar that does not use the reserved symbols the
+generator model returns tables, and they either carry the conflict flag or validate — hence
+(`C08_accepts_iff`, `C08_unambiguous`, `C08_safe`, `C08_error_position`) parse exactly the
+grammar's language. -/
+theorem C08_gen_total {G : Grammar} (hW : WfG G) :
+    ∃ o, gen G = some o ∧ (o.conflicts = true ∨ Valid G o.aut o.cert) := by
+  obtain ⟨o, h⟩ := C08_gen_fuel_sufficient hW
+  refine ⟨o, h, ?_⟩
+  cases hc : o.conflicts with
+  | true => exact Or.inl rfl
+  | false => exact Or.inr (C08_gen_valid h hW hc)
+
+/-- **Level B: ambiguous grammars are reported.**  If some token string has two different
+derivations, the generator model reports conflicts. -/
+theorem C08_gen_ambiguous_conflicts {G : Grammar} {o : Gen.Out} (h : gen G = some o) (hW : WfG G)
+    {w : List Token} {t₁ t₂ : Tree} (h₁ : Derives G t₁ w) (h₂ : Derives G t₂ w) (hne : t₁ ≠ t₂) :
+    o.conflicts = true := by
+  cases hc : o.conflicts with
+  | true => rfl
+  | false => exact absurd (C08_unambiguous (C08_gen_valid h hW hc) h₁ h₂) hne
 
 /-- **Level B, `_closure_of_item`.**  The worklist closure contains its seed, is closed, and
 everything it adds is a dot-0 item that some item of the result brings in (no junk). -/
@@ -165,6 +210,36 @@ theorem C08_error_position {G : Grammar} {A : Automaton} {C : Cert} (hv : Valid 
     simp [Nat.lt_succ_of_le hj]
   · exact no_sentence_of_error hv h (fun _ _ => rfl)
 
+/-- **The hypothesis `Reduced G` is checkable.**  `Gen.reducedB G` — the marking loop for
+productive nonterminals, run by the driver (op `REDUCED`) for every grammar whose tables are
+validated, the two Emboss grammars included, and compared with the harness's own oracle — implies
+`Reduced G`. -/
+theorem C08_reduced_check_sound {G : Grammar} (h : Gen.reducedB G = true) : Reduced G :=
+  reducedB_sound h
+
+/-- **Error position, all hypotheses executable**: tables that pass the compiled validator, for a
+grammar that passes the productivity check, report every syntax error at the first token no
+sentence can continue with. -/
+theorem C08_error_position_checked {G : Grammar} {A : Automaton} {C : Cert}
+    (hv : validFast G A C = true) (hr : Gen.reducedB G = true)
+    {w : List Token} {fuel : Nat} {code : Option Nat} {i s : Nat} {e : List Nat}
+    (h : run A fuel w = .error code i s e) :
+    ViablePrefix G (w.take i) ∧
+    (i < w.length → ∀ v, ¬ Sentence G (w.take (i + 1) ++ v)) ∧
+    ¬ Sentence G w :=
+  C08_error_position (C08_validator_sound hv) (C08_reduced_check_sound hr) h
+
+/-- **Error position for the generator model**: every conflict-free output of `gen` for a
+grammar that passes the productivity check. -/
+theorem C08_gen_error_position {G : Grammar} {o : Gen.Out} (h : gen G = some o) (hW : WfG G)
+    (hc : o.conflicts = false) (hr : Gen.reducedB G = true)
+    {w : List Token} {fuel : Nat} {code : Option Nat} {i s : Nat} {e : List Nat}
+    (he : run o.aut fuel w = .error code i s e) :
+    ViablePrefix G (w.take i) ∧
+    (i < w.length → ∀ v, ¬ Sentence G (w.take (i + 1) ++ v)) ∧
+    ¬ Sentence G w :=
+  C08_error_position (C08_gen_valid h hW hc) (C08_reduced_check_sound hr) he
+
 /-! ### non-vacuity and the counterexample (tables regenerated from the real lr1.py) -/
 open Examples
 
@@ -179,6 +254,10 @@ example : run exA 20 [⟨5, 0⟩, ⟨5, 1⟩] = .error none 2 3 [4, 5] := by dec
 -- end-of-input marker (code 0) is a syntax error at its own index, not "accept what came before"
 example : run exA 60 [⟨5, 0⟩, ⟨0, 1⟩, ⟨5, 2⟩] = .error none 1 3 [4, 5] := exRun3
 example : run exA 60 [⟨5, 0⟩, ⟨4, 1⟩, ⟨0, 2⟩] = .error none 2 4 [0] := exRun5
+-- tie (tables and results regenerated from generated/cached_parser.py and the real `Parser.parse` on every run,
+-- decided by the kernel): `run` on the rows of the shipped Emboss module / expression tables
+example := EmbossRuns.moduleRun0
+example := EmbossRuns.expressionRun0
 -- test: the example tables (regenerated from the real code) pass the termination analysis
 example : TermOK exA := by decide
 example : TermOK f10A := by decide
@@ -186,8 +265,12 @@ example : TermOK f10A := by decide
 -- parser has) and reports conflicts for the ambiguous `S → S a S | b`
 example : (gen exG).map (fun o => (o.conflicts, o.cert.items.size)) = some (false, exC.items.size) := by
   decide +kernel
+-- test: the hypotheses of `C08_gen_valid` are met by the example grammar
+example : WfG exG ∧ (gen exG).map (·.conflicts) = some false := ⟨by decide, by decide +kernel⟩
 example : (gen ⟨2, [⟨2, [2, 3, 2]⟩, ⟨2, [4]⟩], 1, 0⟩).map (·.conflicts) = some true := by decide +kernel
 example : (Gen.closure exC [⟨2, 0, 0⟩]).isSome = true := by decide
+-- test: the productivity check accepts the example grammar and rejects the F10 grammar
+example : Gen.reducedB exG = true ∧ Gen.reducedB f10G = false := by decide
 example : Reduced exG :=
   ⟨by
     have hA : Productive exG 3 := ⟨.node ⟨3, []⟩ [], ParseTree.node _ _ (by decide) (by simp) rfl, rfl⟩
